@@ -324,7 +324,9 @@ func runRemote(t *testing.T, r *rep.Reporter, c *rep.Case, idx int) {
 			body = failBuffer{}
 		}
 		var calls []call
+		bodyCalled := false
 		if len(lt.Accepted) > 0 || callBodyAnyway {
+			bodyCalled = true
 			col := &collector{}
 			t0 := time.Now()
 			pd.BodyNonAtomic(ctx, col, midHeader(mid), body)
@@ -461,7 +463,7 @@ func runRemote(t *testing.T, r *rep.Reporter, c *rep.Case, idx int) {
 			if qp.ViaPipeline {
 				r.Count("remote_transactions_judged_behind_pipeline", 1)
 			}
-			if quar != "" && meta.Quarantine && calls != nil {
+			if quar != "" && meta.Quarantine && bodyCalled {
 				// the flag was up when BodyNonAtomic ran (a fact of the metadata, not of the plan)
 				hopRefused := false
 				for _, f := range facts {
@@ -595,6 +597,13 @@ func runLMTP(t *testing.T, r *rep.Reporter, c *rep.Case, idx int) {
 			mids[tx] = m
 		}
 	}
+	// quarantine flag raised between RCPT and DATA (target.lmtp delivers quarantined
+	// messages; the flag must not change whom results are reported for)
+	pql := prng.New(r.Seed(), uint64(idx), "c09-lmtp-quarantine")
+	quarTx := map[int]bool{}
+	for tx := 1; tx <= nTx; tx++ {
+		quarTx[tx] = pql.Chance(1, 8)
+	}
 	h, err := newHop("lmtp", !plainSMTP, p.Chance(2, 5), &cur, plans, mids)
 	if err != nil {
 		c.Inconclusive("environment: cannot start a scripted next hop: " + err.Error())
@@ -702,8 +711,13 @@ func runLMTP(t *testing.T, r *rep.Reporter, c *rep.Case, idx int) {
 		if openFail {
 			body = failBuffer{}
 		}
+		if quarTx[tx] {
+			meta.Quarantine = true
+			r.Count("lmtp_transactions_with_quarantine_raised_between_rcpt_and_data", 1)
+		}
 		col := &collector{}
 		wit := map[string]any{
+			"quarantine_raised_between_rcpt_and_data": quarTx[tx],
 			"group": "lmtp", "transaction": tx, "of": nTx, "supplied": lt.Supplied, "accepted": lt.Accepted,
 			"addrcpt_errors": rcptErr, "smtputf8_requested": meta.SMTPOpts.UTF8, "next_hop_smtputf8": h.utf8,
 			"body_open_fails": openFail, "plan": plans[tx], "earlier_transactions": hist, "mid_data_fault": mid,
